@@ -370,6 +370,12 @@ func (r *runner) runBlock(bi int, blk *Block) {
 		cp.sweep()
 		r.where = w
 	}
+	// pre-execution system calls: block access index 0
+	if blk.Rules >= RCancun {
+		for k := range blk.Pre {
+			r.sysScope(main, bi, k, &blk.Pre[k], 0, bx, "pre-")
+		}
+	}
 	ci := 0
 	for ti := range blk.Txs {
 		midPending := ti == blk.CopyAt && blk.CopyMid >= 0
@@ -426,6 +432,13 @@ func (r *runner) runBlock(bi int, blk *Block) {
 	}
 	if blk.CopyAt >= len(blk.Txs) && blk.CopyAt >= 0 && cp == nil {
 		fork()
+	}
+	// post-execution system calls: block access index txCount+1 (original only)
+	if blk.Rules >= RCancun {
+		for k := range blk.Post {
+			r.sysScope(main, bi, k, &blk.Post[k], uint32(len(blk.Txs)+1), bx, "post-")
+			both()
+		}
 	}
 	for cp != nil && ci < len(blk.CopyTxs) {
 		ct := &txRun{x: cp, tx: &blk.CopyTxs[ci], bi: bi, ti: blk.CopyAt + ci, bx: cpBx, tag: "copy-"}
@@ -522,11 +535,29 @@ type txRun struct {
 	bx     *balBlock
 	tag    string
 	next   int
+	sys    bool   // system-call scope: no sender, no nonce bump, planned block access index
+	idx    uint32 // block access index (tx index + 1 for transactions)
 }
 
 func (r *runner) txBegin(t *txRun) {
 	r.where = fmt.Sprintf("block %d %stx %d begin", t.bi, t.tag, t.ti)
+	if t.sys {
+		t.x.beginSys(t.tx, t.idx)
+		return
+	}
+	t.idx = uint32(t.ti + 1)
 	t.x.beginTx(t.tx, t.bi, t.ti)
+}
+
+// sysScope runs one system-call scope (pre- or post-execution) on x under the
+// given block access index.
+func (r *runner) sysScope(x *exec, bi, k int, tx *Tx, idx uint32, bx *balBlock, tag string) {
+	t := &txRun{x: x, tx: tx, bi: bi, ti: k, bx: bx, tag: tag, sys: true, idx: idx}
+	r.txBegin(t)
+	for r.txStep(t) {
+	}
+	r.txEnd(t)
+	r.res.Probe("system-scope-" + tag[:len(tag)-1])
 }
 
 // txStep executes the next planned operation; false when none is left.
@@ -547,6 +578,9 @@ func (r *runner) txStep(t *txRun) bool {
 
 func (r *runner) txEnd(t *txRun) {
 	x, tx, bi, ti, bx, tag := t.x, t.tx, t.bi, t.ti, t.bx, t.tag
+	if !t.sys {
+		t.idx = uint32(t.ti + 1)
+	}
 	r.where = fmt.Sprintf("block %d %stx %d end", bi, tag, ti)
 	w0 := x.m.committed // world at tx start
 	for x.m.Depth() > 0 {
@@ -561,7 +595,7 @@ func (r *runner) txEnd(t *txRun) {
 		if !track {
 			simcore.Harnessf("model did not track accesses under Amsterdam rules")
 		}
-		r.checkTxBAL(list, w0, w1, accA, accLo, accHi, uint32(ti+1), bx)
+		r.checkTxBAL(list, w0, w1, accA, accLo, accHi, t.idx, bx)
 	} else if list != nil {
 		r.failf("bal-pre-amsterdam", "Finalise returned an access list before Amsterdam")
 	}
